@@ -182,12 +182,18 @@ def run_cc(prop, tier):
                           env={"VERIF_MAXPATHS": 64 if tier == "quick" else 128})
             recs = jsonl(out)
             summ = [r for r in recs if r["kind"] == "summary"][0]
+            if summ.get("hang"):
+                summ = {"universe": u, "states": 0, "paths": 0, "steps": 0, "panics": 0, "comparisons": 0, "readds": 0, "extractions": 0,
+                        "analysis_data_checked": 0, "matches_checked": 0, "completed_paths": 0, "findings": 1, "universe_terms": 0, "hang": True}
             summ["variant"] = variant
             summaries.append(summ)
             for r in recs:
                 if r["kind"] == "finding":
                     r["variant"] = variant
                     findings.append(r)
+    for f in findings:
+        if f["prop"] == "*":          # watchdog: an operation did not terminate - no property can be judged on it
+            f["prop"] = prop
     mine = [f for f in findings if f["prop"] == prop]
     extra_cov = {}
     if prop == "C01" and mine:
